@@ -858,6 +858,12 @@ class Flow(NLRI):
         assert settings.afi is not None
         assert settings.safi is not None
 
+        # one NLRI has one address family: the prefixes have to be of the family it is announced in
+        for rules in settings.rules.values():
+            for rule in rules:
+                if isinstance(rule, IPrefix) and rule.afi != settings.afi:
+                    raise ValueError(f'{rule.NAME} {rule} is not an {settings.afi.name()} prefix')
+
         instance = cls.make_flow(
             afi=settings.afi,
             safi=settings.safi,
